@@ -285,3 +285,38 @@ func Verif_C15_NamerRewrite(sSelf, sp, sq int) {
 	verifsym.Observe("out", out)
 	verifsym.Reach("end")
 }
+
+// Verif_C03_ManyClash: n packages "a/x<S>", "b/x<S>", ... that all end in the
+// same symbolic segment S (slen lower-case bytes, e.g. spelling a keyword, a
+// std name, "apis", "domain" or "v10"), followed by the single-segment path S
+// itself and by a last path with a symbolic one-byte prefix: the tracker
+// invariant holds after every call and every added path gets a distinct valid
+// non-keyword name (numbered fallbacks included).
+func Verif_C03_ManyClash(n, slen int) {
+	seg := vSeg(slen, 0)
+	tr := NewDefaultImportTracker()
+	var added []string
+	add := func(p string) {
+		tr.AddType(gengotypes.Ref(p, "T"))
+		dup := false
+		for _, q := range added {
+			if q == p {
+				dup = true
+			}
+		}
+		if !dup {
+			added = append(added, p)
+		}
+	}
+	for i := 0; i < n; i++ {
+		add(string([]byte{'a' + byte(i)}) + "/" + seg)
+	}
+	add(seg)
+	add(vSeg(1, 0) + "/" + seg)
+	vCheckTracker(tr, added)
+	for _, p := range added {
+		name := tr.LocalNameOf(p)
+		verifsym.Assert(vIsIdent(name) && !vIsKeyword(name), "a package has no valid non-keyword local name")
+	}
+	verifsym.Reach("end")
+}
